@@ -63,25 +63,28 @@ public:
 	}
 
 	value_type &push_back(const T &element) {
-		_ensure_capacity(_size + 1);
-		auto container = _get_container();
-		T *pointer = new (&container[_size]) T(element);
+		T *pointer;
+		_ensure_capacity(_size + 1, [&] (T *container) {
+			pointer = new (&container[_size]) T(element);
+		});
 		_size++;
 		return *pointer;
 	}
 	value_type &push_back(T &&element) {
-		_ensure_capacity(_size + 1);
-		auto container = _get_container();
-		T *pointer = new (&container[_size]) T(std::move(element));
+		T *pointer;
+		_ensure_capacity(_size + 1, [&] (T *container) {
+			pointer = new (&container[_size]) T(std::move(element));
+		});
 		_size++;
 		return *pointer;
 	}
 
 	template<typename... Args>
 	value_type &emplace_back(Args&&... args) {
-		_ensure_capacity(_size + 1);
-		auto container = _get_container();
-		T *pointer = new (&container[_size]) T(std::forward<Args>(args)...);
+		T *pointer;
+		_ensure_capacity(_size + 1, [&] (T *container) {
+			pointer = new (&container[_size]) T(std::forward<Args>(args)...);
+		});
 		_size++;
 		return *pointer;
 	}
@@ -95,14 +98,15 @@ public:
 
 	template<typename... Args>
 	void resize(size_t new_size, Args&&... args) {
-		_ensure_capacity(new_size);
-		auto container = _get_container();
 		if (new_size < _size) {
+			auto container = _get_container();
 			for (size_t i = new_size; i < _size; i++)
 				container[i].~T();
 		} else {
-			for (size_t i = _size; i < new_size; i++)
-				new (&container[i]) T(args...);
+			_ensure_capacity(new_size, [&] (T *container) {
+				for (size_t i = _size; i < new_size; i++)
+					new (&container[i]) T(args...);
+			});
 		}
 		_size = new_size;
 	}
@@ -161,12 +165,24 @@ private:
 	}
 
 	void _ensure_capacity(size_t capacity) {
-		if (capacity <= _capacity)
-			return;
+		_ensure_capacity(capacity, [] (T *) { });
+	}
 
-		auto container = _get_container();		
+	// Makes room for capacity elements and calls construct(array) on the array that holds
+	// the elements afterwards. If the elements have to move, construct() runs on the new array
+	// before they are moved out and the old array is freed: what construct() reads may
+	// still refer to an element of this vector (as in v.push_back(v[0])).
+	template<typename F>
+	void _ensure_capacity(size_t capacity, F construct) {
+		auto container = _get_container();
+		if (capacity <= _capacity) {
+			construct(container);
+			return;
+		}
+
 		size_t new_capacity = capacity * 2;
 		T *new_array = (T *)_allocator.allocate(sizeof(T) * new_capacity);
+		construct(new_array);
 		for(size_t i = 0; i < _size; i++)
 			new (&new_array[i]) T(std::move(container[i]));
 
